@@ -80,8 +80,17 @@ class InjectLatency:
         src = self.source_name
         dst = self.dest_name
 
+        def apply_active() -> None:
+            # Windows on one link may overlap: the link carries the extras of all
+            # injections still active, and the original only when none is left.
+            latency = original_latency
+            for extra in link.__dict__.setdefault("_injected_latencies", []):
+                latency = _CompoundLatency(latency, extra)
+            link.latency = latency
+
         def activate(e: Event) -> None:
-            link.latency = _CompoundLatency(original_latency, extra_dist)
+            link.__dict__.setdefault("_injected_latencies", []).append(extra_dist)
+            apply_active()
             logger.info(
                 "[FaultInjection] Injected +%sms latency on %s -> %s at %s",
                 self.extra_ms,
@@ -91,7 +100,9 @@ class InjectLatency:
             )
 
         def deactivate(e: Event) -> None:
-            link.latency = original_latency
+            active = link.__dict__.setdefault("_injected_latencies", [])
+            active[:] = [x for x in active if x is not extra_dist]
+            apply_active()
             logger.info(
                 "[FaultInjection] Restored latency on %s -> %s at %s",
                 src,
@@ -156,8 +167,17 @@ class InjectPacketLoss:
         dst = self.dest_name
         extra = self.loss_rate
 
+        token = object()
+
+        def apply_active() -> None:
+            # Windows on one link may overlap: the rate reflects every injection
+            # still active, and the original only when none is left.
+            active = link.__dict__.setdefault("_injected_losses", [])
+            link.packet_loss_rate = min(1.0, original_loss + sum(rate for _, rate in active))
+
         def activate(e: Event) -> None:
-            link.packet_loss_rate = min(1.0, original_loss + extra)
+            link.__dict__.setdefault("_injected_losses", []).append((token, extra))
+            apply_active()
             logger.info(
                 "[FaultInjection] Injected +%.1f%% packet loss on %s -> %s at %s",
                 extra * 100,
@@ -167,7 +187,9 @@ class InjectPacketLoss:
             )
 
         def deactivate(e: Event) -> None:
-            link.packet_loss_rate = original_loss
+            active = link.__dict__.setdefault("_injected_losses", [])
+            active[:] = [(t, rate) for t, rate in active if t is not token]
+            apply_active()
             logger.info(
                 "[FaultInjection] Restored packet loss on %s -> %s at %s",
                 src,
